@@ -201,9 +201,18 @@ type world struct {
 	// explainedBy: deviations (relax bits) under which the reference model
 	// explains the run although the strict model does not.
 	explainedBy int
-	// notReading: transports the client stopped reading (judged after the
-	// model, which may attribute it to a known deviation).
-	notReading []string
+	// deferred: liveness/subscription findings that are reported after the
+	// model has run: if the run is only explicable by the known deviation
+	// "fallback on a failure of a server that is not the active one" (which
+	// leaves the client with an active server that is not the lowest-priority
+	// one in use), they are its consequences and are reported under its name.
+	deferred []deferredViol
+}
+
+type deferredViol struct{ oracle, msg string }
+
+func (wd *world) deferViol(oracle, format string, a ...any) {
+	wd.deferred = append(wd.deferred, deferredViol{oracle, fmt.Sprintf(format, a...)})
 }
 
 type dumpRec struct {
@@ -401,12 +410,12 @@ func runWX(e *core.Env, s *wxScenario, prop string) {
 	wd.checkWatchers()
 	wd.checkFallback()
 	wd.checkRelease()
-	for _, msg := range wd.notReading {
+	for _, d := range wd.deferred {
 		if wd.explainedBy&relaxInactiveFail != 0 {
-			e.Violate("fallback_on_inactive_server_failure", "consequence: a server that is not the active one was left open (fallback was triggered by a failure of a server that was not in use) and its update was ignored without releasing flow control: %s", msg)
+			e.Violate("fallback_on_inactive_server_failure", "consequence (the active server is not the lowest-priority server in use): %s: %s", d.oracle, d.msg)
 			continue
 		}
-		e.Violate("reading_resumes", "%s", msg)
+		e.Violate(d.oracle, "%s", d.msg)
 	}
 }
 
